@@ -312,8 +312,9 @@ def check_history(case):
 
 def strat_wrap(tier):
     return st.fixed_dictionaries({
-        "window": st.integers(2, 4),
+        "window": st.integers(4, 6),
         "slow": st.integers(0, 2),
+        "stragglers": st.integers(1, 3),
         "count": st.sampled_from([65536 + 64, 65536 + 700]),
         "delay": st.sampled_from([5.0, 8.0])})
 
@@ -325,12 +326,13 @@ def check_wrap(case):
     h = simnet.Harness()
     echo = Echo()
     h.net.attach("spinn", 17893, echo)
-    slow = case["slow"]
+    slow = set(range(case["slow"], case["slow"] + case.get("stragglers",
+                                                           1)))
 
     class SlowPlan(simnet.Perfect):
         def replies(self, net, sock, dest, data, replies):
             cmd, seq, cid = _parse(data)
-            if cid == slow:
+            if cid in slow:
                 return [(case["delay"], r) for r in replies]
             return [(0.0, r) for r in replies]
     h.net.plan = SlowPlan()
@@ -372,8 +374,9 @@ CLAUSES = [
            shards={"quick": 8, "thorough": 16}),
     Clause("sequence-wrap", check_wrap, strategy=strat_wrap,
            rule="65 600+ instantly answered commands with window 2-4 while "
-                "one early command's reply is delayed, so the sequence "
-                "counter returns to a number that is still outstanding",
+                "the replies of 1-3 adjacent early commands are delayed, so "
+                "the sequence counter returns to numbers that are still "
+                "outstanding",
            examples={"quick": 2, "thorough": 6},
            shards={"quick": 2, "thorough": 4}),
 ]
